@@ -28,6 +28,16 @@ fn prog(insns: Vec<Insn>, loops: u32, groups: u32) -> CompiledRegex {
     }
 }
 
+/// Typed swap: semantically core::mem::swap, but keeps pointer-typed fields intact for CBMC (the std
+/// implementation swaps untyped byte chunks, after which CBMC cannot resolve what a swapped Vec points to).
+pub fn stub_swap<T>(a: &mut T, b: &mut T) {
+    unsafe {
+        let t = core::ptr::read(a);
+        core::ptr::copy_nonoverlapping(b as *const T, a as *mut T, 1);
+        core::ptr::write(b, t);
+    }
+}
+
 fn pos_at<I: InputIndexer>(input: &I, off: usize) -> I::Position {
     let p = input.try_move_right(input.left_end(), off);
     assert!(p.is_some());
@@ -38,7 +48,7 @@ fn pos_at<I: InputIndexer>(input: &I, off: usize) -> I::Position {
 // run_loop: one RepeatMatcher step from an arbitrary state
 // ------------------------------------------------------------------------------------------
 
-// @verif props=C01,C02,C15 tier=quick timeout=1500 unwind=6 bound="iters,min,max: any usize with min<=max; entry,pos: any position of a 3-byte haystack; greedy and lazy; any exit target" funcs="MatchAttempter::run_loop,prepare_to_enter_loop,try_backtrack(SetPosition,SetLoopData,EnterNonGreedyLoop)"
+// @verif props=C01,C02,C15 tier=quick timeout=1500 unwind=6 bound="iters,min,max: any usize with min<=max; entry,pos: any position of a 3-byte haystack; greedy and lazy; any exit target" funcs="MatchAttempter::run_loop,prepare_to_enter_loop"
 // @verif assumes="min<=max (parser invariant); iters<=max (iterations are only entered while iters<max)"
 #[kani::proof]
 #[kani::unwind(6)]
@@ -80,42 +90,47 @@ fn c01_run_loop_step() {
     let empty_fail = entry == pos && iters > min; // an iteration beyond min that did not advance
     let can_enter = iters < max;
     let can_leave = iters >= min;
+    let ld = ma.s.loops[0];
     if empty_fail || (!can_enter && !can_leave) {
         assert!(r.is_none());
         assert!(ma.bts.len() == 1);
-        assert!(ma.s.loops[0].iters == iters && ma.s.loops[0].entry == entry);
+        assert!(ld.iters == iters && ld.entry == entry);
     } else if !can_enter {
         assert!(r == Some(exit as usize));
         assert!(ma.bts.len() == 1);
-        assert!(ma.s.loops[0].iters == iters && ma.s.loops[0].entry == entry);
+        assert!(ld.iters == iters && ld.entry == entry);
     } else if !can_leave || greedy {
-        // the body is entered now
+        // the body is entered now; the record on top restores the loop data exactly
         assert!(r == Some(1));
-        assert!(ma.s.loops[0].iters == iters + 1 && ma.s.loops[0].entry == pos);
-        let mut ip = 77usize;
-        let mut p2 = input.left_end();
-        let resumed = ma.try_backtrack(&input, &mut ip, &mut p2, Forward::new());
-        // undo restores the loop data exactly
-        assert!(ma.s.loops[0].iters == iters && ma.s.loops[0].entry == entry);
+        assert!(ld.iters == iters + 1 && ld.entry == pos);
+        let top = ma.bts.len() - 1;
+        match &ma.bts[top] {
+            BacktrackInsn::SetLoopData { id, data } => {
+                assert!(*id == 0 && data.iters == iters && data.entry == entry);
+            }
+            _ => assert!(false, "top record must restore the loop data"),
+        }
         if can_leave {
-            // greedy with both arms viable: leaving the loop is the alternative, at the same position
-            assert!(resumed && ip == exit as usize && p2 == pos);
-            assert!(ma.bts.len() == 1);
+            // greedy with both arms viable: below it, leaving the loop at the same position is the alternative
+            assert!(ma.bts.len() == 3);
+            match &ma.bts[1] {
+                BacktrackInsn::SetPosition { ip, pos: p } => assert!(*ip == exit as usize && *p == pos),
+                _ => assert!(false, "alternative must be: leave the loop here"),
+            }
         } else {
-            assert!(!resumed);
+            assert!(ma.bts.len() == 2);
         }
     } else {
-        // lazy with both arms viable: leave now, entering the body is the alternative
+        // lazy with both arms viable: leave now; entering the body is the recorded alternative, and the
+        // record carries what is needed to restore the data as it was before the loop instruction
         assert!(r == Some(exit as usize));
-        let mut ip = 77usize;
-        let mut p2 = input.left_end();
-        let resumed = ma.try_backtrack(&input, &mut ip, &mut p2, Forward::new());
-        assert!(resumed && ip == 1 && p2 == pos);
-        assert!(ma.s.loops[0].iters == iters + 1 && ma.s.loops[0].entry == pos);
-        // and backtracking out of that iteration restores the data as it was before the loop insn
-        let resumed2 = ma.try_backtrack(&input, &mut ip, &mut p2, Forward::new());
-        assert!(!resumed2);
-        assert!(ma.s.loops[0].iters == iters && ma.s.loops[0].entry == entry);
+        assert!(ma.bts.len() == 2);
+        match &ma.bts[1] {
+            BacktrackInsn::EnterNonGreedyLoop { ip, orig_pos, data } => {
+                assert!(*ip == 0 && *orig_pos == entry && data.iters == iters && data.entry == pos);
+            }
+            _ => assert!(false, "alternative must be: enter the loop body"),
+        }
     }
     kani::cover!(empty_fail, "empty iteration rejected");
     kani::cover!(!empty_fail && can_enter && can_leave && greedy, "greedy split");
@@ -127,7 +142,73 @@ fn c01_run_loop_step() {
 }
 
 // EnterLoop (first entry) resets the iteration count before deciding.
-// @verif props=C01,C02,C05 tier=quick timeout=1500 unwind=8 bound="EnterLoop{min<=max<=2^64-1} followed by JustFail body and Goal exit; stale loop data arbitrary" funcs="MatchAttempter::try_at_pos(EnterLoop arm),run_loop"
+// Resuming each loop-related backtrack record restores exactly what run_loop promised.
+// @verif props=C01,C02 tier=quick timeout=1800 unwind=5 bound="hand-built stack [Exhausted, R] for R in {SetPosition, SetLoopData, EnterNonGreedyLoop} with symbolic contents over a 3-byte haystack" funcs="MatchAttempter::try_backtrack(SetPosition,SetLoopData,EnterNonGreedyLoop),prepare_to_enter_loop"
+#[kani::proof]
+#[kani::unwind(5)]
+fn c02_backtrack_loop_records() {
+    let text = "abc";
+    let input = Utf8Input::new(text, false);
+    let cr = prog(
+        vec![
+            Insn::EnterLoop(LoopFields { loop_id: 0, min_iters: 0, max_iters: 5, greedy: false, exit: 2 }),
+            Insn::JustFail,
+            Insn::Goal,
+        ],
+        1,
+        0,
+    );
+    let iters: usize = kani::any();
+    kani::assume(iters < usize::MAX);
+    let (a, b, c): (usize, usize, usize) = (kani::any(), kani::any(), kani::any());
+    kani::assume(a <= 3 && b <= 3 && c <= 3);
+    let (pa, pb, pc) = (pos_at(&input, a), pos_at(&input, b), pos_at(&input, c));
+    let cur_iters: usize = kani::any();
+    let mut ma = MatchAttempter::<Utf8Input>::new(&cr, input.left_end());
+    ma.s.loops[0] = LoopData { iters: cur_iters, entry: pc };
+    let kind: u8 = kani::any();
+    kani::assume(kind < 3);
+    let rec = match kind {
+        0 => BacktrackInsn::SetPosition { ip: 7, pos: pa },
+        1 => BacktrackInsn::SetLoopData { id: 0, data: LoopData { iters, entry: pa } },
+        _ => BacktrackInsn::EnterNonGreedyLoop { ip: 0, orig_pos: pa, data: LoopData { iters, entry: pb } },
+    };
+    ma.bts.push(rec);
+    let mut ip = 99usize;
+    let mut p = pc;
+    let resumed = ma.try_backtrack(&input, &mut ip, &mut p, Forward::new());
+    let ld = ma.s.loops[0];
+    match kind {
+        0 => {
+            assert!(resumed && ip == 7 && p == pa && ma.bts.len() == 1);
+            assert!(ld.iters == cur_iters && ld.entry == pc);
+        }
+        1 => {
+            assert!(!resumed && ma.bts.len() == 1);
+            assert!(ld.iters == iters && ld.entry == pa);
+        }
+        _ => {
+            // resume inside the loop body at the position the loop insn was executed at ...
+            assert!(resumed && ip == 1 && p == pb);
+            assert!(ld.iters == iters + 1 && ld.entry == pb);
+            // ... and leave behind records that restore {iters, entry: orig_pos}
+            assert!(ma.bts.len() == 3);
+            let mut ip2 = 99usize;
+            let mut p2 = pc;
+            let again = ma.try_backtrack(&input, &mut ip2, &mut p2, Forward::new());
+            assert!(!again && ma.bts.len() == 1);
+            let ld2 = ma.s.loops[0];
+            assert!(ld2.iters == iters && ld2.entry == pa);
+        }
+    }
+    kani::cover!(kind == 2, "lazy loop re-entered");
+    core::mem::forget(ma);
+    core::mem::forget(cr);
+}
+
+// (thorough only: after the loop decision the instruction pointer is symbolic for CBMC, every further
+// interpreter iteration explores all arms)
+// @verif props=C01,C02 tier=thorough timeout=3600 unwind=8 bound="EnterLoop{min<=max<=2^64-1} followed by JustFail body and Goal exit; stale loop data arbitrary" funcs="MatchAttempter::try_at_pos(EnterLoop arm),run_loop"
 #[kani::proof]
 #[kani::unwind(8)]
 fn c01_enter_loop_resets_iters() {
@@ -169,7 +250,7 @@ fn c01_enter_loop_resets_iters() {
 // undo completeness (C02-H3): after a failed attempt the shared state is bit-identical
 // ------------------------------------------------------------------------------------------
 
-fn any_group(input: &Utf8Input) -> GroupData<<Utf8Input as InputIndexer>::Position> {
+fn any_group<'a>(input: &Utf8Input<'a>) -> GroupData<<Utf8Input<'a> as InputIndexer>::Position> {
     let a: usize = kani::any();
     let b: usize = kani::any();
     kani::assume(a <= b && b <= 3);
@@ -221,9 +302,10 @@ fn c02_undo_captures() {
 
 // Lookaround capture effects: a positive lookaround that matched keeps its captures for the
 // continuation and undoes them when the continuation fails; a negative one never leaks captures.
-// @verif props=C02,C01 tier=quick timeout=1800 unwind=12 bound="[Look{negate,0..1} Begin(0) . End(0) Goal | cont: Char(c) Goal] on 3 symbolic ASCII bytes; lookahead and lookbehind" funcs="MatchAttempter::run_lookaround,try_at_pos(Lookahead,Lookbehind),try_backtrack"
+// @verif props=C02,C01 tier=quick timeout=1800 unwind=12 bound="[Look{negate,0..1} Begin(0) . End(0) Goal | cont: Char(c) Goal] on 3 symbolic ASCII bytes; lookahead and lookbehind" funcs="MatchAttempter::run_lookaround,try_at_pos(Lookahead,Lookbehind),try_backtrack" stubs="core::mem::swap -> typed swap (same semantics)"
 #[kani::proof]
 #[kani::unwind(12)]
+#[kani::stub(core::mem::swap, stub_swap)]
 fn c02_lookaround_capture_effects() {
     let b: [u8; 3] = kani::any();
     kani::assume(b[0] < 0x80 && b[1] < 0x80 && b[2] < 0x80);
@@ -349,12 +431,12 @@ fn scm_loop_body<I: InputIndexer, F: Fn(u32) -> bool>(
     body: Insn,
     brackets: Vec<BracketContents>,
     matches: F,
+    fwd: bool,
+    greedy: bool,
 ) {
     let min: usize = kani::any();
     let max: usize = kani::any();
     kani::assume(min <= max && max <= 4);
-    let greedy: bool = kani::any();
-    let fwd: bool = kani::any();
     let mut cr = prog(vec![Insn::Loop1CharBody { min_iters: min, max_iters: max, greedy }, body, Insn::Goal], 0, 0);
     cr.brackets = brackets;
     let i: usize = kani::any();
@@ -388,81 +470,183 @@ fn scm_loop_body<I: InputIndexer, F: Fn(u32) -> bool>(
         assert!(ma.bts.len() == 1);
     } else {
         assert!(r == Some(2), "continuation is the instruction after the body");
-        let first = if greedy { run } else { min };
         let idx_of = |cnt: usize| if fwd { i + cnt } else { i - cnt };
+        let first = if greedy { run } else { min };
         assert!(input.pos_to_offset(pos) == hy.off[idx_of(first)]);
-        // exhaust the alternatives in priority order
-        let mut cnt = first;
-        let mut step = 0;
-        while step < 5 {
-            let more = if greedy { cnt > min } else { cnt < run };
-            let mut ip = 99usize;
-            let mut p2 = start;
-            let resumed = if fwd {
-                ma.try_backtrack(&input, &mut ip, &mut p2, Forward::new())
-            } else {
-                ma.try_backtrack(&input, &mut ip, &mut p2, Backward::new())
+        // The alternatives are recorded as one record {continuation, min position, max position}; resuming it
+        // step by step is checked separately (c02_backtrack_loop1char_records).
+        if run == min {
+            assert!(ma.bts.len() == 1, "no alternative when min == run length");
+        } else {
+            assert!(ma.bts.len() == 2);
+            let (is_greedy, c2, mn, mx) = match &ma.bts[1] {
+                BacktrackInsn::GreedyLoop1Char { continuation, min, max } => (true, *continuation, *min, *max),
+                BacktrackInsn::NonGreedyLoop1Char { continuation, min, max } => (false, *continuation, *min, *max),
+                _ => {
+                    assert!(false, "unexpected record");
+                    (false, 0, start, start)
+                }
             };
-            assert!(resumed == more, "exactly the repetition counts between min and the run length are tried");
-            if !resumed {
-                break;
-            }
-            cnt = if greedy { cnt - 1 } else { cnt + 1 };
-            assert!(ip == 2);
-            assert!(input.pos_to_offset(p2) == hy.off[idx_of(cnt)]);
-            step += 1;
+            assert!(is_greedy == greedy && c2 == 2);
+            assert!(input.pos_to_offset(mn) == hy.off[idx_of(min)]);
+            assert!(input.pos_to_offset(mx) == hy.off[idx_of(run)]);
         }
-        assert!(ma.bts.len() == 1);
     }
     kani::cover!(r.is_none(), "loop failed");
-    kani::cover!(r.is_some() && run > min && greedy, "greedy loop with alternatives");
-    kani::cover!(r.is_some() && run > min && !greedy, "lazy loop with alternatives");
+    kani::cover!(r.is_some() && run > min + 1, "loop with at least two alternatives to backtrack over");
+    kani::cover!(r.is_some() && run == min, "loop without alternatives");
     core::mem::forget(ma);
     core::mem::forget(cr);
 }
 
-// @verif props=C01,C03,C06,C15 tier=quick timeout=2400 unwind=7 bound="Loop1CharBody{min<=max<=4} over Char(c), c any u32 <= 0x10FFFF incl. surrogates; haystack <= 3 symbolic scalars; both directions; greedy and lazy" funcs="MatchAttempter::run_scm_loop,with_scm_loop_impl,with_scm_compute_max,run_scm_loop_impl,compute_max_pos,try_backtrack(GreedyLoop1Char,NonGreedyLoop1Char),scm::Char"
+// @verif props=C01,C03,C06,C15 tier=quick timeout=2400 unwind=7 bound="Loop1CharBody{min<=max<=4} over Char(c), c any u32 <= 0x10FFFF incl. surrogates; haystack <= 3 symbolic scalars; forward, greedy" funcs="MatchAttempter::run_scm_loop,with_scm_loop_impl,with_scm_compute_max,run_scm_loop_impl,compute_max_pos,try_backtrack(GreedyLoop1Char,NonGreedyLoop1Char),scm::Char"
 #[kani::proof]
 #[kani::unwind(7)]
-fn c01_scm_loop_char_utf8() {
+fn c01_scm_loop_char_utf8_fwd_greedy() {
     let hy = any_hay(false);
     let text: &str = unsafe { core::str::from_utf8_unchecked(&hy.buf[..hy.len]) };
     let input = Utf8Input::new(text, false);
     let c: u32 = kani::any();
     kani::assume(c <= 0x10FFFF);
-    scm_loop_body(input, &hy, Insn::Char(c), Vec::new(), |d| d == c);
+    scm_loop_body(input, &hy, Insn::Char(c), Vec::new(), |d| d == c, true, true);
     kani::cover!(c >= 0xD800 && c <= 0xDFFF, "pattern character is a surrogate (cannot occur in UTF-8 text)");
 }
 
-// @verif props=C13,C03,C06 tier=quick timeout=2400 unwind=7 bound="Loop1CharBody{min<=max<=4} over Char(c), c any u32 <= 0x10FFFF (mostly not representable as u8); haystack <= 3 symbolic ASCII bytes; AsciiInput" funcs="MatchAttempter<AsciiInput>::run_scm_loop,with_scm_loop_impl,with_scm_compute_max,try_backtrack"
+// @verif props=C01,C03,C06,C15 tier=thorough timeout=2400 unwind=7 bound="Loop1CharBody{min<=max<=4} over Char(c), c any u32 <= 0x10FFFF incl. surrogates; haystack <= 3 symbolic scalars; forward, lazy" funcs="MatchAttempter::run_scm_loop,with_scm_loop_impl,with_scm_compute_max,run_scm_loop_impl,compute_max_pos,try_backtrack(GreedyLoop1Char,NonGreedyLoop1Char),scm::Char"
 #[kani::proof]
 #[kani::unwind(7)]
-fn c13_scm_loop_char_ascii() {
+fn c01_scm_loop_char_utf8_fwd_lazy() {
+    let hy = any_hay(false);
+    let text: &str = unsafe { core::str::from_utf8_unchecked(&hy.buf[..hy.len]) };
+    let input = Utf8Input::new(text, false);
+    let c: u32 = kani::any();
+    kani::assume(c <= 0x10FFFF);
+    scm_loop_body(input, &hy, Insn::Char(c), Vec::new(), |d| d == c, true, false);
+    kani::cover!(c >= 0xD800 && c <= 0xDFFF, "pattern character is a surrogate (cannot occur in UTF-8 text)");
+}
+
+// @verif props=C01,C03,C06,C15 tier=thorough timeout=2400 unwind=7 bound="Loop1CharBody{min<=max<=4} over Char(c), c any u32 <= 0x10FFFF incl. surrogates; haystack <= 3 symbolic scalars; backward, greedy" funcs="MatchAttempter::run_scm_loop,with_scm_loop_impl,with_scm_compute_max,run_scm_loop_impl,compute_max_pos,try_backtrack(GreedyLoop1Char,NonGreedyLoop1Char),scm::Char"
+#[kani::proof]
+#[kani::unwind(7)]
+fn c01_scm_loop_char_utf8_bwd_greedy() {
+    let hy = any_hay(false);
+    let text: &str = unsafe { core::str::from_utf8_unchecked(&hy.buf[..hy.len]) };
+    let input = Utf8Input::new(text, false);
+    let c: u32 = kani::any();
+    kani::assume(c <= 0x10FFFF);
+    scm_loop_body(input, &hy, Insn::Char(c), Vec::new(), |d| d == c, false, true);
+    kani::cover!(c >= 0xD800 && c <= 0xDFFF, "pattern character is a surrogate (cannot occur in UTF-8 text)");
+}
+
+// @verif props=C01,C03,C06,C15 tier=quick timeout=2400 unwind=7 bound="Loop1CharBody{min<=max<=4} over Char(c), c any u32 <= 0x10FFFF incl. surrogates; haystack <= 3 symbolic scalars; backward, lazy" funcs="MatchAttempter::run_scm_loop,with_scm_loop_impl,with_scm_compute_max,run_scm_loop_impl,compute_max_pos,try_backtrack(GreedyLoop1Char,NonGreedyLoop1Char),scm::Char"
+#[kani::proof]
+#[kani::unwind(7)]
+fn c01_scm_loop_char_utf8_bwd_lazy() {
+    let hy = any_hay(false);
+    let text: &str = unsafe { core::str::from_utf8_unchecked(&hy.buf[..hy.len]) };
+    let input = Utf8Input::new(text, false);
+    let c: u32 = kani::any();
+    kani::assume(c <= 0x10FFFF);
+    scm_loop_body(input, &hy, Insn::Char(c), Vec::new(), |d| d == c, false, false);
+    kani::cover!(c >= 0xD800 && c <= 0xDFFF, "pattern character is a surrogate (cannot occur in UTF-8 text)");
+}
+
+// @verif props=C13,C03,C06 tier=thorough timeout=2400 unwind=7 bound="Loop1CharBody{min<=max<=4} over Char(c), c any u32 <= 0x10FFFF (mostly not representable as u8); haystack <= 3 symbolic ASCII bytes; AsciiInput; forward, greedy" funcs="MatchAttempter<AsciiInput>::run_scm_loop,with_scm_loop_impl,with_scm_compute_max,try_backtrack"
+#[kani::proof]
+#[kani::unwind(7)]
+fn c13_scm_loop_char_ascii_fwd_greedy() {
     let hy = any_hay(true);
     let text: &str = unsafe { core::str::from_utf8_unchecked(&hy.buf[..hy.len]) };
     let input = AsciiInput::new(text, false);
     let c: u32 = kani::any();
     kani::assume(c <= 0x10FFFF);
-    scm_loop_body(input, &hy, Insn::Char(c), Vec::new(), |d| d == c);
+    scm_loop_body(input, &hy, Insn::Char(c), Vec::new(), |d| d == c, true, true);
     kani::cover!(c > 0xFF, "pattern character not representable as a byte");
 }
 
-// @verif props=C01,C06 tier=quick timeout=2400 unwind=7 bound="Loop1CharBody over MatchAnyExceptLineTerminator; haystack <= 3 symbolic scalars" funcs="run_scm_loop,scm::MatchAnyExceptLineTerminator"
+// @verif props=C13,C03,C06 tier=quick timeout=2400 unwind=7 bound="Loop1CharBody{min<=max<=4} over Char(c), c any u32 <= 0x10FFFF (mostly not representable as u8); haystack <= 3 symbolic ASCII bytes; AsciiInput; forward, lazy" funcs="MatchAttempter<AsciiInput>::run_scm_loop,with_scm_loop_impl,with_scm_compute_max,try_backtrack"
 #[kani::proof]
 #[kani::unwind(7)]
-fn c01_scm_loop_dot_utf8() {
+fn c13_scm_loop_char_ascii_fwd_lazy() {
+    let hy = any_hay(true);
+    let text: &str = unsafe { core::str::from_utf8_unchecked(&hy.buf[..hy.len]) };
+    let input = AsciiInput::new(text, false);
+    let c: u32 = kani::any();
+    kani::assume(c <= 0x10FFFF);
+    scm_loop_body(input, &hy, Insn::Char(c), Vec::new(), |d| d == c, true, false);
+    kani::cover!(c > 0xFF, "pattern character not representable as a byte");
+}
+
+// @verif props=C13,C03,C06 tier=quick timeout=2400 unwind=7 bound="Loop1CharBody{min<=max<=4} over Char(c), c any u32 <= 0x10FFFF (mostly not representable as u8); haystack <= 3 symbolic ASCII bytes; AsciiInput; backward, greedy" funcs="MatchAttempter<AsciiInput>::run_scm_loop,with_scm_loop_impl,with_scm_compute_max,try_backtrack"
+#[kani::proof]
+#[kani::unwind(7)]
+fn c13_scm_loop_char_ascii_bwd_greedy() {
+    let hy = any_hay(true);
+    let text: &str = unsafe { core::str::from_utf8_unchecked(&hy.buf[..hy.len]) };
+    let input = AsciiInput::new(text, false);
+    let c: u32 = kani::any();
+    kani::assume(c <= 0x10FFFF);
+    scm_loop_body(input, &hy, Insn::Char(c), Vec::new(), |d| d == c, false, true);
+    kani::cover!(c > 0xFF, "pattern character not representable as a byte");
+}
+
+// @verif props=C13,C03,C06 tier=thorough timeout=2400 unwind=7 bound="Loop1CharBody{min<=max<=4} over Char(c), c any u32 <= 0x10FFFF (mostly not representable as u8); haystack <= 3 symbolic ASCII bytes; AsciiInput; backward, lazy" funcs="MatchAttempter<AsciiInput>::run_scm_loop,with_scm_loop_impl,with_scm_compute_max,try_backtrack"
+#[kani::proof]
+#[kani::unwind(7)]
+fn c13_scm_loop_char_ascii_bwd_lazy() {
+    let hy = any_hay(true);
+    let text: &str = unsafe { core::str::from_utf8_unchecked(&hy.buf[..hy.len]) };
+    let input = AsciiInput::new(text, false);
+    let c: u32 = kani::any();
+    kani::assume(c <= 0x10FFFF);
+    scm_loop_body(input, &hy, Insn::Char(c), Vec::new(), |d| d == c, false, false);
+    kani::cover!(c > 0xFF, "pattern character not representable as a byte");
+}
+
+// @verif props=C01,C06 tier=quick timeout=2400 unwind=7 bound="Loop1CharBody over MatchAnyExceptLineTerminator; haystack <= 3 symbolic scalars; forward, greedy" funcs="run_scm_loop,scm::MatchAnyExceptLineTerminator"
+#[kani::proof]
+#[kani::unwind(7)]
+fn c01_scm_loop_dot_utf8_fwd_greedy() {
     let hy = any_hay(false);
     let text: &str = unsafe { core::str::from_utf8_unchecked(&hy.buf[..hy.len]) };
     let input = Utf8Input::new(text, false);
-    scm_loop_body(input, &hy, Insn::MatchAnyExceptLineTerminator, Vec::new(), |d| {
-        !(d == 0xA || d == 0xD || d == 0x2028 || d == 0x2029)
-    });
+    scm_loop_body(input, &hy, Insn::MatchAnyExceptLineTerminator, Vec::new(), |d| !(d == 0xA || d == 0xD || d == 0x2028 || d == 0x2029), true, true);
 }
 
-// @verif props=C01,C06,C12 tier=quick timeout=2400 unwind=9 bound="Loop1CharBody over Bracket{invert symbolic, one symbolic interval}; haystack <= 3 symbolic scalars" funcs="run_scm_loop,scm::Bracket,CharProperties::bracket,CodePointSet::contains"
+// @verif props=C01,C06 tier=thorough timeout=2400 unwind=7 bound="Loop1CharBody over MatchAnyExceptLineTerminator; haystack <= 3 symbolic scalars; forward, lazy" funcs="run_scm_loop,scm::MatchAnyExceptLineTerminator"
+#[kani::proof]
+#[kani::unwind(7)]
+fn c01_scm_loop_dot_utf8_fwd_lazy() {
+    let hy = any_hay(false);
+    let text: &str = unsafe { core::str::from_utf8_unchecked(&hy.buf[..hy.len]) };
+    let input = Utf8Input::new(text, false);
+    scm_loop_body(input, &hy, Insn::MatchAnyExceptLineTerminator, Vec::new(), |d| !(d == 0xA || d == 0xD || d == 0x2028 || d == 0x2029), true, false);
+}
+
+// @verif props=C01,C06 tier=thorough timeout=2400 unwind=7 bound="Loop1CharBody over MatchAnyExceptLineTerminator; haystack <= 3 symbolic scalars; backward, greedy" funcs="run_scm_loop,scm::MatchAnyExceptLineTerminator"
+#[kani::proof]
+#[kani::unwind(7)]
+fn c01_scm_loop_dot_utf8_bwd_greedy() {
+    let hy = any_hay(false);
+    let text: &str = unsafe { core::str::from_utf8_unchecked(&hy.buf[..hy.len]) };
+    let input = Utf8Input::new(text, false);
+    scm_loop_body(input, &hy, Insn::MatchAnyExceptLineTerminator, Vec::new(), |d| !(d == 0xA || d == 0xD || d == 0x2028 || d == 0x2029), false, true);
+}
+
+// @verif props=C01,C06 tier=thorough timeout=2400 unwind=7 bound="Loop1CharBody over MatchAnyExceptLineTerminator; haystack <= 3 symbolic scalars; backward, lazy" funcs="run_scm_loop,scm::MatchAnyExceptLineTerminator"
+#[kani::proof]
+#[kani::unwind(7)]
+fn c01_scm_loop_dot_utf8_bwd_lazy() {
+    let hy = any_hay(false);
+    let text: &str = unsafe { core::str::from_utf8_unchecked(&hy.buf[..hy.len]) };
+    let input = Utf8Input::new(text, false);
+    scm_loop_body(input, &hy, Insn::MatchAnyExceptLineTerminator, Vec::new(), |d| !(d == 0xA || d == 0xD || d == 0x2028 || d == 0x2029), false, false);
+}
+
+// @verif props=C01,C06,C12 tier=thorough timeout=2400 unwind=9 bound="Loop1CharBody over Bracket{invert symbolic, one symbolic interval}; haystack <= 3 symbolic scalars; forward, greedy" funcs="run_scm_loop,scm::Bracket,CharProperties::bracket,CodePointSet::contains"
 #[kani::proof]
 #[kani::unwind(9)]
-fn c01_scm_loop_bracket_utf8() {
+fn c01_scm_loop_bracket_utf8_fwd_greedy() {
     let hy = any_hay(false);
     let text: &str = unsafe { core::str::from_utf8_unchecked(&hy.buf[..hy.len]) };
     let input = Utf8Input::new(text, false);
@@ -471,35 +655,236 @@ fn c01_scm_loop_bracket_utf8() {
     kani::assume(lo <= hi && hi <= 0x10FFFF);
     let invert: bool = kani::any();
     let bc = BracketContents { invert, cps: CodePointSet::from_sorted_disjoint_intervals(vec![Interval { first: lo, last: hi }]) };
-    scm_loop_body(input, &hy, Insn::Bracket(0), vec![bc], |d| (lo <= d && d <= hi) != invert);
+    scm_loop_body(input, &hy, Insn::Bracket(0), vec![bc], |d| (lo <= d && d <= hi) != invert, true, true);
 }
 
-// Byte-oriented single-character matchers (what the optimiser lowers 1-char literals and small
-// case-insensitive sets to): a ByteSeq of the UTF-8 bytes of c must behave as the character c.
-// @verif props=C01,C03,C06 tier=quick timeout=2400 unwind=7 bound="Loop1CharBody over ByteSeq2(utf8(c)), c any 2-byte scalar; haystack <= 3 symbolic scalars; both directions" funcs="run_scm_loop,scm::MatchByteSeq,cursor::try_match_lit,Utf8Input::match_bytes,next_left_pos,next_right_pos"
+// @verif props=C01,C06,C12 tier=thorough timeout=2400 unwind=9 bound="Loop1CharBody over Bracket{invert symbolic, one symbolic interval}; haystack <= 3 symbolic scalars; forward, lazy" funcs="run_scm_loop,scm::Bracket,CharProperties::bracket,CodePointSet::contains"
+#[kani::proof]
+#[kani::unwind(9)]
+fn c01_scm_loop_bracket_utf8_fwd_lazy() {
+    let hy = any_hay(false);
+    let text: &str = unsafe { core::str::from_utf8_unchecked(&hy.buf[..hy.len]) };
+    let input = Utf8Input::new(text, false);
+    let lo: u32 = kani::any();
+    let hi: u32 = kani::any();
+    kani::assume(lo <= hi && hi <= 0x10FFFF);
+    let invert: bool = kani::any();
+    let bc = BracketContents { invert, cps: CodePointSet::from_sorted_disjoint_intervals(vec![Interval { first: lo, last: hi }]) };
+    scm_loop_body(input, &hy, Insn::Bracket(0), vec![bc], |d| (lo <= d && d <= hi) != invert, true, false);
+}
+
+// @verif props=C01,C06,C12 tier=quick timeout=2400 unwind=9 bound="Loop1CharBody over Bracket{invert symbolic, one symbolic interval}; haystack <= 3 symbolic scalars; backward, greedy" funcs="run_scm_loop,scm::Bracket,CharProperties::bracket,CodePointSet::contains"
+#[kani::proof]
+#[kani::unwind(9)]
+fn c01_scm_loop_bracket_utf8_bwd_greedy() {
+    let hy = any_hay(false);
+    let text: &str = unsafe { core::str::from_utf8_unchecked(&hy.buf[..hy.len]) };
+    let input = Utf8Input::new(text, false);
+    let lo: u32 = kani::any();
+    let hi: u32 = kani::any();
+    kani::assume(lo <= hi && hi <= 0x10FFFF);
+    let invert: bool = kani::any();
+    let bc = BracketContents { invert, cps: CodePointSet::from_sorted_disjoint_intervals(vec![Interval { first: lo, last: hi }]) };
+    scm_loop_body(input, &hy, Insn::Bracket(0), vec![bc], |d| (lo <= d && d <= hi) != invert, false, true);
+}
+
+// @verif props=C01,C06,C12 tier=thorough timeout=2400 unwind=9 bound="Loop1CharBody over Bracket{invert symbolic, one symbolic interval}; haystack <= 3 symbolic scalars; backward, lazy" funcs="run_scm_loop,scm::Bracket,CharProperties::bracket,CodePointSet::contains"
+#[kani::proof]
+#[kani::unwind(9)]
+fn c01_scm_loop_bracket_utf8_bwd_lazy() {
+    let hy = any_hay(false);
+    let text: &str = unsafe { core::str::from_utf8_unchecked(&hy.buf[..hy.len]) };
+    let input = Utf8Input::new(text, false);
+    let lo: u32 = kani::any();
+    let hi: u32 = kani::any();
+    kani::assume(lo <= hi && hi <= 0x10FFFF);
+    let invert: bool = kani::any();
+    let bc = BracketContents { invert, cps: CodePointSet::from_sorted_disjoint_intervals(vec![Interval { first: lo, last: hi }]) };
+    scm_loop_body(input, &hy, Insn::Bracket(0), vec![bc], |d| (lo <= d && d <= hi) != invert, false, false);
+}
+
+// @verif props=C01,C03,C06 tier=thorough timeout=2400 unwind=7 bound="Loop1CharBody over ByteSeq2(utf8(c)), c any 2-byte scalar; haystack <= 3 symbolic scalars; forward, greedy" funcs="run_scm_loop,scm::MatchByteSeq,cursor::try_match_lit,Utf8Input::match_bytes,next_left_pos,next_right_pos"
 #[kani::proof]
 #[kani::unwind(7)]
-fn c01_scm_loop_byteseq2_utf8() {
+fn c01_scm_loop_byteseq2_utf8_fwd_greedy() {
     let hy = any_hay(false);
     let text: &str = unsafe { core::str::from_utf8_unchecked(&hy.buf[..hy.len]) };
     let input = Utf8Input::new(text, false);
     let c: u32 = kani::any();
     kani::assume(c >= 0x80 && c < 0x800);
     let bytes = [0xC0 | (c >> 6) as u8, 0x80 | (c & 0x3F) as u8];
-    scm_loop_body(input, &hy, Insn::ByteSeq2(bytes), Vec::new(), |d| d == c);
+    scm_loop_body(input, &hy, Insn::ByteSeq2(bytes), Vec::new(), |d| d == c, true, true);
 }
 
-// @verif props=C01,C03,C06 tier=thorough timeout=2400 unwind=7 bound="Loop1CharBody over ByteSeq3(utf8(c)), c any 3-byte scalar; haystack <= 3 symbolic scalars; both directions" funcs="run_scm_loop,scm::MatchByteSeq"
+// @verif props=C01,C03,C06 tier=thorough timeout=2400 unwind=7 bound="Loop1CharBody over ByteSeq2(utf8(c)), c any 2-byte scalar; haystack <= 3 symbolic scalars; forward, lazy" funcs="run_scm_loop,scm::MatchByteSeq,cursor::try_match_lit,Utf8Input::match_bytes,next_left_pos,next_right_pos"
 #[kani::proof]
 #[kani::unwind(7)]
-fn c01_scm_loop_byteseq3_utf8() {
+fn c01_scm_loop_byteseq2_utf8_fwd_lazy() {
+    let hy = any_hay(false);
+    let text: &str = unsafe { core::str::from_utf8_unchecked(&hy.buf[..hy.len]) };
+    let input = Utf8Input::new(text, false);
+    let c: u32 = kani::any();
+    kani::assume(c >= 0x80 && c < 0x800);
+    let bytes = [0xC0 | (c >> 6) as u8, 0x80 | (c & 0x3F) as u8];
+    scm_loop_body(input, &hy, Insn::ByteSeq2(bytes), Vec::new(), |d| d == c, true, false);
+}
+
+// @verif props=C01,C03,C06 tier=quick timeout=2400 unwind=7 bound="Loop1CharBody over ByteSeq2(utf8(c)), c any 2-byte scalar; haystack <= 3 symbolic scalars; backward, greedy" funcs="run_scm_loop,scm::MatchByteSeq,cursor::try_match_lit,Utf8Input::match_bytes,next_left_pos,next_right_pos"
+#[kani::proof]
+#[kani::unwind(7)]
+fn c01_scm_loop_byteseq2_utf8_bwd_greedy() {
+    let hy = any_hay(false);
+    let text: &str = unsafe { core::str::from_utf8_unchecked(&hy.buf[..hy.len]) };
+    let input = Utf8Input::new(text, false);
+    let c: u32 = kani::any();
+    kani::assume(c >= 0x80 && c < 0x800);
+    let bytes = [0xC0 | (c >> 6) as u8, 0x80 | (c & 0x3F) as u8];
+    scm_loop_body(input, &hy, Insn::ByteSeq2(bytes), Vec::new(), |d| d == c, false, true);
+}
+
+// @verif props=C01,C03,C06 tier=thorough timeout=2400 unwind=7 bound="Loop1CharBody over ByteSeq2(utf8(c)), c any 2-byte scalar; haystack <= 3 symbolic scalars; backward, lazy" funcs="run_scm_loop,scm::MatchByteSeq,cursor::try_match_lit,Utf8Input::match_bytes,next_left_pos,next_right_pos"
+#[kani::proof]
+#[kani::unwind(7)]
+fn c01_scm_loop_byteseq2_utf8_bwd_lazy() {
+    let hy = any_hay(false);
+    let text: &str = unsafe { core::str::from_utf8_unchecked(&hy.buf[..hy.len]) };
+    let input = Utf8Input::new(text, false);
+    let c: u32 = kani::any();
+    kani::assume(c >= 0x80 && c < 0x800);
+    let bytes = [0xC0 | (c >> 6) as u8, 0x80 | (c & 0x3F) as u8];
+    scm_loop_body(input, &hy, Insn::ByteSeq2(bytes), Vec::new(), |d| d == c, false, false);
+}
+
+// @verif props=C01,C03,C06 tier=thorough timeout=2400 unwind=7 bound="Loop1CharBody over ByteSeq3(utf8(c)), c any 3-byte scalar; haystack <= 3 symbolic scalars; forward, greedy" funcs="run_scm_loop,scm::MatchByteSeq"
+#[kani::proof]
+#[kani::unwind(7)]
+fn c01_scm_loop_byteseq3_utf8_fwd_greedy() {
     let hy = any_hay(false);
     let text: &str = unsafe { core::str::from_utf8_unchecked(&hy.buf[..hy.len]) };
     let input = Utf8Input::new(text, false);
     let c: u32 = kani::any();
     kani::assume(c >= 0x800 && c < 0x10000 && !(c >= 0xD800 && c <= 0xDFFF));
     let bytes = [0xE0 | (c >> 12) as u8, 0x80 | ((c >> 6) & 0x3F) as u8, 0x80 | (c & 0x3F) as u8];
-    scm_loop_body(input, &hy, Insn::ByteSeq3(bytes), Vec::new(), |d| d == c);
+    scm_loop_body(input, &hy, Insn::ByteSeq3(bytes), Vec::new(), |d| d == c, true, true);
+}
+
+// @verif props=C01,C03,C06 tier=thorough timeout=2400 unwind=7 bound="Loop1CharBody over ByteSeq3(utf8(c)), c any 3-byte scalar; haystack <= 3 symbolic scalars; forward, lazy" funcs="run_scm_loop,scm::MatchByteSeq"
+#[kani::proof]
+#[kani::unwind(7)]
+fn c01_scm_loop_byteseq3_utf8_fwd_lazy() {
+    let hy = any_hay(false);
+    let text: &str = unsafe { core::str::from_utf8_unchecked(&hy.buf[..hy.len]) };
+    let input = Utf8Input::new(text, false);
+    let c: u32 = kani::any();
+    kani::assume(c >= 0x800 && c < 0x10000 && !(c >= 0xD800 && c <= 0xDFFF));
+    let bytes = [0xE0 | (c >> 12) as u8, 0x80 | ((c >> 6) & 0x3F) as u8, 0x80 | (c & 0x3F) as u8];
+    scm_loop_body(input, &hy, Insn::ByteSeq3(bytes), Vec::new(), |d| d == c, true, false);
+}
+
+// @verif props=C01,C03,C06 tier=thorough timeout=2400 unwind=7 bound="Loop1CharBody over ByteSeq3(utf8(c)), c any 3-byte scalar; haystack <= 3 symbolic scalars; backward, greedy" funcs="run_scm_loop,scm::MatchByteSeq"
+#[kani::proof]
+#[kani::unwind(7)]
+fn c01_scm_loop_byteseq3_utf8_bwd_greedy() {
+    let hy = any_hay(false);
+    let text: &str = unsafe { core::str::from_utf8_unchecked(&hy.buf[..hy.len]) };
+    let input = Utf8Input::new(text, false);
+    let c: u32 = kani::any();
+    kani::assume(c >= 0x800 && c < 0x10000 && !(c >= 0xD800 && c <= 0xDFFF));
+    let bytes = [0xE0 | (c >> 12) as u8, 0x80 | ((c >> 6) & 0x3F) as u8, 0x80 | (c & 0x3F) as u8];
+    scm_loop_body(input, &hy, Insn::ByteSeq3(bytes), Vec::new(), |d| d == c, false, true);
+}
+
+// @verif props=C01,C03,C06 tier=thorough timeout=2400 unwind=7 bound="Loop1CharBody over ByteSeq3(utf8(c)), c any 3-byte scalar; haystack <= 3 symbolic scalars; backward, lazy" funcs="run_scm_loop,scm::MatchByteSeq"
+#[kani::proof]
+#[kani::unwind(7)]
+fn c01_scm_loop_byteseq3_utf8_bwd_lazy() {
+    let hy = any_hay(false);
+    let text: &str = unsafe { core::str::from_utf8_unchecked(&hy.buf[..hy.len]) };
+    let input = Utf8Input::new(text, false);
+    let c: u32 = kani::any();
+    kani::assume(c >= 0x800 && c < 0x10000 && !(c >= 0xD800 && c <= 0xDFFF));
+    let bytes = [0xE0 | (c >> 12) as u8, 0x80 | ((c >> 6) & 0x3F) as u8, 0x80 | (c & 0x3F) as u8];
+    scm_loop_body(input, &hy, Insn::ByteSeq3(bytes), Vec::new(), |d| d == c, false, false);
+}
+
+// One backtracking step over a 1-char-loop record: moves exactly one character towards `min`
+// (greedy) or towards `max` (lazy), stays inside [min,max] on character boundaries, and pops the record
+// when min == max.  By induction this enumerates the repetition counts in priority order.
+fn loop1char_record_body(fwd: bool, greedy: bool) {
+    let hy = any_hay(false);
+    let text: &str = unsafe { core::str::from_utf8_unchecked(&hy.buf[..hy.len]) };
+    let input = Utf8Input::new(text, false);
+    let cr = prog(vec![Insn::Goal], 0, 0);
+    let (a, b): (usize, usize) = (kani::any(), kani::any());
+    kani::assume(a <= b && b <= hy.n);
+    // forward loops have min <= max, backward loops min >= max (in text order)
+    let (imin, imax) = if fwd { (a, b) } else { (b, a) };
+    let (pmin, pmax) = (pos_at(&input, hy.off[imin]), pos_at(&input, hy.off[imax]));
+    let mut ma = MatchAttempter::<Utf8Input>::new(&cr, input.left_end());
+    ma.bts.push(if greedy {
+        BacktrackInsn::GreedyLoop1Char { continuation: 5, min: pmin, max: pmax }
+    } else {
+        BacktrackInsn::NonGreedyLoop1Char { continuation: 5, min: pmin, max: pmax }
+    });
+    let mut ip = 99usize;
+    let mut p = input.left_end();
+    let resumed = if fwd {
+        ma.try_backtrack(&input, &mut ip, &mut p, Forward::new())
+    } else {
+        ma.try_backtrack(&input, &mut ip, &mut p, Backward::new())
+    };
+    if a == b {
+        assert!(!resumed && ma.bts.len() == 1);
+    } else {
+        assert!(resumed && ip == 5 && ma.bts.len() == 2);
+        // one character closer: greedy shrinks max towards min, lazy grows min towards max
+        let want = if greedy {
+            if fwd { imax - 1 } else { imax + 1 }
+        } else if fwd {
+            imin + 1
+        } else {
+            imin - 1
+        };
+        assert!(input.pos_to_offset(p) == hy.off[want]);
+        match &ma.bts[1] {
+            BacktrackInsn::GreedyLoop1Char { continuation, min, max } => {
+                assert!(greedy && *continuation == 5 && *min == pmin && *max == p);
+            }
+            BacktrackInsn::NonGreedyLoop1Char { continuation, min, max } => {
+                assert!(!greedy && *continuation == 5 && *min == p && *max == pmax);
+            }
+            _ => assert!(false),
+        }
+    }
+    kani::cover!(a + 2 <= b, "at least two characters between min and max");
+    kani::cover!(a == b, "exhausted record");
+    core::mem::forget(ma);
+    core::mem::forget(cr);
+}
+
+// @verif props=C01,C02,C06 tier=quick timeout=1800 unwind=6 bound="record {min,max} on any boundaries of a haystack of <= 3 symbolic scalars; forward greedy" funcs="MatchAttempter::try_backtrack(GreedyLoop1Char),Utf8Input::next_left_pos"
+#[kani::proof]
+#[kani::unwind(6)]
+fn c02_backtrack_loop1char_fwd_greedy() {
+    loop1char_record_body(true, true);
+}
+// @verif props=C01,C02,C06 tier=quick timeout=1800 unwind=6 bound="record {min,max} on any boundaries of a haystack of <= 3 symbolic scalars; forward lazy" funcs="MatchAttempter::try_backtrack(NonGreedyLoop1Char),Utf8Input::next_right_pos"
+#[kani::proof]
+#[kani::unwind(6)]
+fn c02_backtrack_loop1char_fwd_lazy() {
+    loop1char_record_body(true, false);
+}
+// @verif props=C01,C02,C06 tier=quick timeout=1800 unwind=6 bound="record {min,max} on any boundaries of a haystack of <= 3 symbolic scalars; backward (lookbehind) greedy" funcs="MatchAttempter::try_backtrack(GreedyLoop1Char),Utf8Input::next_right_pos"
+#[kani::proof]
+#[kani::unwind(6)]
+fn c02_backtrack_loop1char_bwd_greedy() {
+    loop1char_record_body(false, true);
+}
+// @verif props=C01,C02,C06 tier=quick timeout=1800 unwind=6 bound="record {min,max} on any boundaries of a haystack of <= 3 symbolic scalars; backward (lookbehind) lazy" funcs="MatchAttempter::try_backtrack(NonGreedyLoop1Char),Utf8Input::next_left_pos"
+#[kani::proof]
+#[kani::unwind(6)]
+fn c02_backtrack_loop1char_bwd_lazy() {
+    loop1char_record_body(false, true == false);
 }
 
 // ------------------------------------------------------------------------------------------
@@ -602,18 +987,17 @@ fn next_boundary_after(hy: &Hay, o: usize) -> Option<usize> {
     res
 }
 
-fn c09_body<E: exec::MatchProducer>(mk: impl FnOnce(&CompiledRegex, &str) -> E, cr: &CompiledRegex, anchored: bool, ascii: bool)
-where
-    E: exec::MatchProducer,
-{
-    let hy = any_hay(ascii);
+macro_rules! c09_body {
+    ($exec:ty, $cr:expr, $anchored:expr, $ascii:expr) => {{
+    let anchored: bool = $anchored;
+    let hy = any_hay($ascii);
     let text: &str = unsafe { core::str::from_utf8_unchecked(&hy.buf[..hy.len]) };
     any_oracle(&hy, anchored);
     let start: usize = kani::any();
     // API precondition of find_from: start beyond the end, or on a char boundary
     kani::assume(start > hy.len || is_boundary(&hy, start));
     kani::assume(start <= BYTES + 3);
-    let mut it = exec::Matches::new(mk(cr, text), start);
+    let mut it = exec::Matches::new(<$exec as exec::Executor>::new($cr, text), start);
     let mut cursor: Option<usize> = if start <= hy.len { Some(start) } else { None };
     let mut last_end: usize = 0;
     let mut count = 0usize;
@@ -654,38 +1038,39 @@ where
     kani::cover!(count == hy.n + 1 && hy.n >= 2, "an empty match at every position");
     kani::cover!(start > hy.len, "start beyond the end");
     core::mem::forget(it);
+    }};
 }
 
-// @verif props=C09,C15 tier=quick timeout=2400 unwind=8 bound="haystack <= 3 symbolic scalars, arbitrary engine table, symbolic start (incl. beyond the end), up to 6 next() calls; StartPredicate::Arbitrary" funcs="exec::Matches::new,Matches::next,BacktrackExecutor::initial_position,next_match,next_match_with_prefix_search,successful_match,Utf8Input::find_bytes,next_right_pos"
+// @verif props=C09,C15 tier=quick timeout=2400 unwind=15 bound="haystack <= 3 symbolic scalars, arbitrary engine table, symbolic start (incl. beyond the end), up to 6 next() calls; StartPredicate::Arbitrary" funcs="exec::Matches::new,Matches::next,BacktrackExecutor::initial_position,next_match,next_match_with_prefix_search,successful_match,Utf8Input::find_bytes,next_right_pos"
 // @verif stubs="MatchAttempter::try_at_pos -> arbitrary deterministic table END[offset]" assumes="start is beyond the end or on a char boundary (find_from's documented precondition)"
 #[kani::proof]
-#[kani::unwind(8)]
+#[kani::unwind(15)]
 #[kani::stub(crate::classicalbacktrack::MatchAttempter::try_at_pos, stub_try_at_pos)]
 fn c09_iter_backtrack_utf8() {
     let cr = prog(vec![Insn::Goal], 0, 0);
-    c09_body(|cr, text| <BacktrackExecutor<Utf8Input> as exec::Executor>::new(cr, text), &cr, false, false);
+    c09_body!(BacktrackExecutor<Utf8Input>, &cr, false, false);
     core::mem::forget(cr);
 }
 
-// @verif props=C09 tier=quick timeout=2400 unwind=8 bound="as c09_iter_backtrack_utf8 with StartPredicate::StartAnchored and an engine that can only match at offset 0" funcs="BacktrackExecutor::next_match_anchored"
+// @verif props=C09 tier=quick timeout=2400 unwind=15 bound="as c09_iter_backtrack_utf8 with StartPredicate::StartAnchored and an engine that can only match at offset 0" funcs="BacktrackExecutor::next_match_anchored"
 // @verif stubs="MatchAttempter::try_at_pos -> table" assumes="an anchored program matches only at offset 0"
 #[kani::proof]
-#[kani::unwind(8)]
+#[kani::unwind(15)]
 #[kani::stub(crate::classicalbacktrack::MatchAttempter::try_at_pos, stub_try_at_pos)]
 fn c09_iter_backtrack_anchored() {
     let mut cr = prog(vec![Insn::Goal], 0, 0);
     cr.start_pred = StartPredicate::StartAnchored;
-    c09_body(|cr, text| <BacktrackExecutor<Utf8Input> as exec::Executor>::new(cr, text), &cr, true, false);
+    c09_body!(BacktrackExecutor<Utf8Input>, &cr, true, false);
     core::mem::forget(cr);
 }
 
-// @verif props=C09,C13 tier=quick timeout=2400 unwind=8 bound="as c09_iter_backtrack_utf8 through AsciiInput on <= 3 symbolic ASCII bytes" funcs="BacktrackExecutor<AsciiInput>::next_match,AsciiInput::find_bytes,next_right_pos"
+// @verif props=C09,C13 tier=quick timeout=2400 unwind=15 bound="as c09_iter_backtrack_utf8 through AsciiInput on <= 3 symbolic ASCII bytes" funcs="BacktrackExecutor<AsciiInput>::next_match,AsciiInput::find_bytes,next_right_pos"
 // @verif stubs="MatchAttempter::try_at_pos -> table"
 #[kani::proof]
-#[kani::unwind(8)]
+#[kani::unwind(15)]
 #[kani::stub(crate::classicalbacktrack::MatchAttempter::try_at_pos, stub_try_at_pos)]
 fn c09_iter_backtrack_ascii() {
     let cr = prog(vec![Insn::Goal], 0, 0);
-    c09_body(|cr, text| <BacktrackExecutor<AsciiInput> as exec::Executor>::new(cr, text), &cr, false, true);
+    c09_body!(BacktrackExecutor<AsciiInput>, &cr, false, true);
     core::mem::forget(cr);
 }
